@@ -1,12 +1,19 @@
 (* Props/C02.v — property C02: results do not depend on how the input bytes reach the searcher.
    Statements only.
-   PROVED here: the roll buffer (LineBuffer::fill/roll/ensure_capacity/consume) is a faithful
-   window of the stream for EVERY read history, capacity >= 0 and growth policy: nothing is lost,
-   duplicated or reordered; the searchable part ends right after a line terminator unless the
-   stream is exhausted; the loop never runs out of fuel; and the strategy selection lemma.
-   NOT YET PROVED (tested on every run by model = code and reader = slice on generated cases,
-   tools/props/C02.py): ReadByLine::run = SliceByLine::run on the event level (the simulation
-   between Core::roll's re-basing and the slice run). *)
+   PROVED here:
+   1-3. the roll buffer (LineBuffer::fill/roll/ensure_capacity/consume) is a faithful window of the
+        stream for EVERY read history, capacity >= 0 and growth policy: nothing is lost, duplicated
+        or reordered; the searchable part ends right after a line terminator unless the stream is
+        exhausted; the loop never runs out of fuel; and the strategy selection lemma.
+   4-8. ReadByLine::run (incremental reader over the roll buffer) delivers exactly the events of the
+        grep reference — hence of SliceByLine::run — for every input, configuration (context sizes,
+        invert, passthru, line numbers, stop-on-nonmatch, any terminator), matcher obeying the
+        find_by_line_fast / candidate contract, buffer capacity >= 0 and failure-free read history;
+        the simulation of Proofs/SlowPathProofs.v / FastPathProofs.v carried across Core::roll.
+        The final byte count equals the input length whenever the search is not cut short by
+        stop-on-nonmatch; when it is, the reader reports the offset of the START of its buffer
+        (<= the reference count): known finding D8 "EarlyEndByteCount", witnessed below.
+   (Reads that fail: Props/C16.v, read-failure prefix theorem.) *)
 From RG Require Import Base.Bytes Model.Lines Model.SearcherCore Model.Glue Model.ReadByLine
   Proofs.LineBufferProofs.
 
@@ -56,3 +63,152 @@ Example fill_example :
   | _ => False
   end.
 Proof. vm_compute. auto. Qed.
+
+(* ---------------------------------------------------------------------------------------------
+   ReadByLine::run = the grep reference = SliceByLine::run *)
+From RG Require Import Spec.GrepSpec Proofs.FastPathProofs Proofs.FindSpecProofs Proofs.ReaderProofs
+  Model.ScriptedMatcher.
+
+(* 4. the reader strategy with the growing buffer (BufferAllocation::Eager), a sink that always
+      continues, binary detection off, a read history without failures (`chunks`: every read()
+      delivers between 1 and n bytes, any n, any fragmentation), any initial capacity (0 included):
+      the events are those of the reference run over the lines of the stream, in order, with the
+      true offsets and line numbers; the byte count n of `finish` is the input length unless
+      stop-on-nonmatch ended the search, and never exceeds the reference count. *)
+Theorem reader_eq_ref :
+  forall (cfg : config) (M : matcher), c_binary cfg = BNone -> (forall buf, find_spec cfg M buf) ->
+  forall (cap : nat) (stream : bytes) (hist : list read_step), chunks hist ->
+  let gf := g_run cfg (m_is_match M) (split_lines (lt_byte (c_lt cfg)) stream) in
+  exists n, read_by_line_run cfg M (fun _ => Continue) AEager cap stream hist
+            = RunOk (EBegin :: rev (g_out gf) ++ [EFinish n None]) /\
+            (g_stopped gf = false -> n = length stream) /\ n <= g_off gf.
+Proof. exact reader_eq_ref_proof. Qed.
+Print Assumptions reader_eq_ref.
+
+(* 4'. the same from the candidate contract of grep-matcher (Props/C03.v item 4) *)
+Theorem reader_eq_ref_from_candidate_contract :
+  forall (cfg : config) (M : matcher), c_binary cfg = BNone -> (forall buf, cand_ok cfg M buf) ->
+  forall (cap : nat) (stream : bytes) (hist : list read_step), chunks hist ->
+  let gf := g_run cfg (m_is_match M) (split_lines (lt_byte (c_lt cfg)) stream) in
+  exists n, read_by_line_run cfg M (fun _ => Continue) AEager cap stream hist
+            = RunOk (EBegin :: rev (g_out gf) ++ [EFinish n None]) /\
+            (g_stopped gf = false -> n = length stream) /\ n <= g_off gf.
+Proof.
+  intros cfg M Hb Hc. apply reader_eq_ref_proof; [exact Hb|].
+  intro buf. apply find_spec_of_cand_proof. apply Hc.
+Qed.
+Print Assumptions reader_eq_ref_from_candidate_contract.
+
+(* 4''. the slow line path (passthru, or a matcher that does not advertise the terminator): every
+        matcher, no contract *)
+Theorem reader_slow_eq_ref :
+  forall (cfg : config) (M : matcher), c_binary cfg = BNone ->
+  (forall c, is_line_by_line_fast cfg M c = false) ->
+  forall (cap : nat) (stream : bytes) (hist : list read_step), chunks hist ->
+  let gf := g_run cfg (m_is_match M) (split_lines (lt_byte (c_lt cfg)) stream) in
+  exists n, read_by_line_run cfg M (fun _ => Continue) AEager cap stream hist
+            = RunOk (EBegin :: rev (g_out gf) ++ [EFinish n None]) /\
+            (g_stopped gf = false -> n = length stream) /\ n <= g_off gf.
+Proof. exact reader_slow_eq_ref_proof. Qed.
+Print Assumptions reader_slow_eq_ref.
+
+(* 5. any allocation policy (BufferAllocation::Error(limit) included): the same, or the run returns
+      the allocation error (a line longer than capacity + limit) *)
+Theorem reader_eq_ref_any_policy :
+  forall (cfg : config) (M : matcher), c_binary cfg = BNone -> (forall buf, find_spec cfg M buf) ->
+  forall (pol : alloc_policy) (cap : nat) (stream : bytes) (hist : list read_step), chunks hist ->
+  let gf := g_run cfg (m_is_match M) (split_lines (lt_byte (c_lt cfg)) stream) in
+  (exists n, read_by_line_run cfg M (fun _ => Continue) pol cap stream hist
+             = RunOk (EBegin :: rev (g_out gf) ++ [EFinish n None]) /\
+             (g_stopped gf = false -> n = length stream) /\ n <= g_off gf) \/
+  ((exists limit, pol = AError limit) /\
+   exists evs, read_by_line_run cfg M (fun _ => Continue) pol cap stream hist = RunErr evs).
+Proof. exact reader_eq_ref_any_policy_proof. Qed.
+Print Assumptions reader_eq_ref_any_policy.
+
+(* 6. a search that stop-on-nonmatch does not cut short: the whole result, byte count included,
+      is the reference *)
+Theorem reader_complete_eq_ref :
+  forall (cfg : config) (M : matcher), c_binary cfg = BNone -> (forall buf, find_spec cfg M buf) ->
+  forall (cap : nat) (stream : bytes) (hist : list read_step), chunks hist ->
+  g_stopped (g_run cfg (m_is_match M) (split_lines (lt_byte (c_lt cfg)) stream)) = false ->
+  read_by_line_run cfg M (fun _ => Continue) AEager cap stream hist = RunOk (grep_ref cfg (m_is_match M) stream).
+Proof. exact reader_complete_eq_ref_proof. Qed.
+Print Assumptions reader_complete_eq_ref.
+
+(* 7. reader strategy = slice strategy: the same events in the same order; the byte counts agree
+      unless stop-on-nonmatch ended the search (then reader count <= slice count, finding D8) *)
+Theorem reader_eq_slice :
+  forall (cfg : config) (M : matcher), c_binary cfg = BNone -> (forall buf, find_spec cfg M buf) ->
+  forall (cap : nat) (stream : bytes) (hist : list read_step), chunks hist ->
+  exists evs n m,
+    read_by_line_run cfg M (fun _ => Continue) AEager cap stream hist = RunOk (evs ++ [EFinish n None]) /\
+    slice_by_line_run cfg M (fun _ => Continue) stream = RunOk (evs ++ [EFinish m None]) /\
+    n <= m /\
+    (g_stopped (g_run cfg (m_is_match M) (split_lines (lt_byte (c_lt cfg)) stream)) = false -> n = m).
+Proof. exact reader_eq_slice_proof. Qed.
+Print Assumptions reader_eq_slice.
+
+(* 8. without stop-on-nonmatch the two strategies return the very same result, whatever the
+      capacity and however the reads are fragmented *)
+Theorem reader_eq_slice_complete :
+  forall (cfg : config) (M : matcher), c_binary cfg = BNone -> (forall buf, find_spec cfg M buf) ->
+  c_stop_on_nonmatch cfg = false ->
+  forall (cap : nat) (stream : bytes) (hist : list read_step), chunks hist ->
+  read_by_line_run cfg M (fun _ => Continue) AEager cap stream hist
+  = slice_by_line_run cfg M (fun _ => Continue) stream.
+Proof. exact reader_eq_slice_complete_proof. Qed.
+Print Assumptions reader_eq_slice_complete.
+
+(* non-vacuity.  The hypothesis is satisfiable for every configuration (Props/C03.v
+   cand_ok_satisfiable); concrete runs with capacity 1 and 1-byte reads, so that the buffer grows
+   and rolls in every round, with before- and after-context, a context break, line numbers and an
+   unterminated last line: *)
+Example reader_rolls_example :
+  let cfg := {| c_lt := LTByte 10; c_invert := false; c_after := 1; c_before := 1; c_passthru := false;
+                c_line_number := true; c_stop_on_nonmatch := false; c_binary := BNone; c_multi_line := false |} in
+  let M := scripted cfg [ {| n_anch := false; n_bytes := [98]%N; n_real := true |} ] true 1%N in
+  let s := [98; 10; 120; 10; 121; 10; 119; 10; 122; 10; 98; 10; 113; 10; 98]%N in
+  read_by_line_run cfg M (fun _ => Continue) AEager 1 s (repeat (RChunk 1) 40) = RunOk (grep_ref cfg (m_is_match M) s)
+  /\ read_by_line_run cfg M (fun _ => Continue) AEager 2 s (repeat (RChunk 3) 40) = RunOk (grep_ref cfg (m_is_match M) s)
+  /\ read_by_line_run cfg M (fun _ => Continue) AEager 0 s [] = RunOk (grep_ref cfg (m_is_match M) s)
+  /\ slice_by_line_run cfg M (fun _ => Continue) s = RunOk (grep_ref cfg (m_is_match M) s)
+  /\ grep_ref cfg (m_is_match M) s =
+     [EBegin; EMatched 0 (Some 1) [98; 10]%N; EContext CAfter 2 (Some 2) [120; 10]%N; EBreak;
+      EContext CBefore 8 (Some 5) [122; 10]%N; EMatched 10 (Some 6) [98; 10]%N;
+      EContext CAfter 12 (Some 7) [113; 10]%N; EMatched 14 (Some 8) [98]%N; EFinish 15 None].
+Proof. vm_compute. repeat split; reflexivity. Qed.
+
+(* the inverted fast path and the slow path (passthru), same capacity and reads *)
+Example reader_rolls_invert_passthru_example :
+  let cfg i p := {| c_lt := LTByte 10; c_invert := i; c_after := 0; c_before := 2; c_passthru := p;
+                c_line_number := true; c_stop_on_nonmatch := false; c_binary := BNone; c_multi_line := false |} in
+  let M i p := scripted (cfg i p) [ {| n_anch := false; n_bytes := [98]%N; n_real := true |} ] true 1%N in
+  let s := [98; 10; 120; 10; 121; 10; 119; 10; 122; 10; 98; 10; 113; 10; 98; 10]%N in
+  read_by_line_run (cfg true false) (M true false) (fun _ => Continue) AEager 1 s (repeat (RChunk 1) 40)
+    = RunOk (grep_ref (cfg true false) (m_is_match (M true false)) s)
+  /\ read_by_line_run (cfg false true) (M false true) (fun _ => Continue) AEager 1 s (repeat (RChunk 1) 40)
+    = RunOk (grep_ref (cfg false true) (m_is_match (M false true)) s).
+Proof. vm_compute. split; reflexivity. Qed.
+
+(* finding D8 (EarlyEndByteCount): stop-on-nonmatch ends the search after line 2; the events agree,
+   but the reader reports where its buffer started (0 with one big read, 2 with 1-byte reads and
+   capacity 1) while the slice strategy reports the scan position 4 *)
+Example early_end_byte_count_witness :
+  let cfg := {| c_lt := LTByte 10; c_invert := false; c_after := 0; c_before := 0; c_passthru := false;
+                c_line_number := true; c_stop_on_nonmatch := true; c_binary := BNone; c_multi_line := false |} in
+  let M := scripted cfg [ {| n_anch := false; n_bytes := [97]%N; n_real := true |} ] true 1%N in
+  let s := [97; 10; 98; 10; 99; 10]%N in
+  read_by_line_run cfg M (fun _ => Continue) AEager 8 s [] = RunOk [EBegin; EMatched 0 (Some 1) [97; 10]%N; EFinish 0 None]
+  /\ read_by_line_run cfg M (fun _ => Continue) AEager 1 s (repeat (RChunk 1) 20)
+     = RunOk [EBegin; EMatched 0 (Some 1) [97; 10]%N; EFinish 2 None]
+  /\ slice_by_line_run cfg M (fun _ => Continue) s = RunOk [EBegin; EMatched 0 (Some 1) [97; 10]%N; EFinish 4 None].
+Proof. vm_compute. repeat split; reflexivity. Qed.
+
+(* the allocation-error alternative of item 5 does occur: capacity 1, no growth allowed *)
+Example alloc_error_example :
+  let cfg := {| c_lt := LTByte 10; c_invert := false; c_after := 0; c_before := 0; c_passthru := false;
+                c_line_number := true; c_stop_on_nonmatch := false; c_binary := BNone; c_multi_line := false |} in
+  let M := scripted cfg [ {| n_anch := false; n_bytes := [97]%N; n_real := true |} ] true 1%N in
+  read_by_line_run cfg M (fun _ => Continue) (AError 0) 1 [97; 10]%N [] = RunErr [EBegin].
+Proof. vm_compute. reflexivity. Qed.
